@@ -43,6 +43,7 @@ impl SentpkC {
                 0,
                 now,
                 &TransportConfig::default(),
+                0,
             ),
         }
     }
